@@ -8,6 +8,7 @@ import (
 	"path/filepath"
 	"regexp"
 	"runtime"
+	"sort"
 	"strconv"
 	"strings"
 	"sync"
@@ -42,7 +43,7 @@ func registerC20() {
 		ID:    "C20",
 		Level: "exploration",
 		Rule: "the constant table is generated at check time from the types.go of the tree under test (go/parser) and compiled into the checker; a case is one (type, value): " +
-			"every constant of every generated type, every remaining value of 8- and 16-bit types, and for 32-bit types all neighbours of constants plus 200000 PRNG values; " +
+			"every constant of every generated type, every remaining value of 8- and 16-bit types, and for 32-bit types all neighbours of constants, every single-bit and two-bit value, every OR / sum / difference of two named values, plus 200000 PRNG values; " +
 			"before any sequential use in the worker process, 8 goroutines make the process's first String() calls of each type at the same moment; non-trivial: String() was called and compared (named value: one of the names without the type prefix; other value: Type(n)); the value checks are repeated in a binary built with GOARCH=386 (32-bit int) when the host can run it; plus regeneration of types_string.go with the repository's own stringer (verif-tagged fitgen) compared byte for byte",
 		Assume:        []string{"Bool (hand-written in types_man.go, prints prefixed names by design) is reported separately and not judged by the generated-type rule"},
 		MinNontrivial: 100000,
@@ -139,6 +140,33 @@ func c20OneType(c *lib.Ctx, idx uint64) {
 			for _, v := range []uint64{0, 1, mask, mask - 1, mask >> 1, mask>>1 + 1} {
 				check(v)
 				n++
+			}
+			// flag-like values: every single bit, every pair of bits, every complement of one bit,
+			// and the OR / sum / difference of every pair of named values
+			for i := 0; i < t.Bits; i++ {
+				check(1 << uint(i))
+				check(^(uint64(1) << uint(i)))
+				n += 2
+				for j := 0; j < i; j++ {
+					check(1<<uint(i) | 1<<uint(j))
+					n++
+				}
+			}
+			vals := make([]uint64, 0, len(names))
+			for v := range names {
+				vals = append(vals, v)
+			}
+			sort.Slice(vals, func(a, b int) bool { return vals[a] < vals[b] })
+			if len(vals) > 120 {
+				vals = vals[:120]
+			}
+			for _, a := range vals {
+				for _, b := range vals {
+					check(a | b)
+					check(a + b)
+					check(a - b)
+					n += 3
+				}
 			}
 			rng := lib.NewRand("C20."+t.Name, 0)
 			for i := 0; i < 200000; i++ {
